@@ -238,3 +238,119 @@ Proof.
   - (* PDump *)
     destruct (_ && _); [|discriminate]. intros [= <- _]. exact I.
 Qed.
+
+(* ------------------------------------------------------------------------------------ *)
+(* GC labels do not change any read at or above the discard timestamp *)
+
+Definition gc_label (o : xop) : bool :=
+  match o with
+  | GcStart _ _ | GcScan _ | GcWriteBack | GcDelete _ | GcEnd | ItOpen _ _ _ | ItClose _ => true
+  | _ => false
+  end.
+
+Lemma gc_label_admissible s o : gc_label o = true -> admissible s o.
+Proof. destruct o; cbn; auto; discriminate. Qed.
+
+Lemma gc_label_gvis s o s' tg : inv s -> gc_label o = true -> xstep s o = XOk s' tg ->
+  x_dmax s' = x_dmax s /\ s_now (x_sys s') = s_now (x_sys s) /\
+  forall k ts, gvis (x_v s') (x_db s') (s_now (x_sys s)) k ts = gvis (x_v s) (x_db s) (s_now (x_sys s)) k ts.
+Proof.
+  intros I L. destruct o; try discriminate; cbn [xstep].
+  - destruct (lookup (s_txns (x_sys s)) t) as [x|]; [|discriminate]. intros [= <- _]. auto.
+  - destruct (lookup (x_iters s) i) as [it|]; [|discriminate]. intros [= <- _].
+    unfold close_iter. destruct (filter _ (x_iters s)); auto.
+  - destruct (x_gc s) as [g|]; [discriminate|].
+    destruct (existsb (N.eqb fid) (x_todel s)). { destruct (r =? 1); [|discriminate]. intros [= <- _]. auto. }
+    destruct (negb (fid <? v_max (x_v s))); [discriminate|].
+    destruct (negb (file_present (x_v s) fid)); [discriminate|].
+    destruct (r =? 0); [|discriminate]. intros [= <- _]. auto.
+  - destruct (x_gc s) as [g|]; [|discriminate]. destruct (g_scanned g); [discriminate|].
+    destruct (keys_eqb _ kept); [|discriminate]. intros [= <- _]. auto.
+  - destruct (x_gc s) as [g|] eqn:G; [|discriminate].
+    destruct (g_scanned g) eqn:Sc; [|discriminate]. cbn [negb].
+    destruct (g_wb g) as [|p ps] eqn:Wb. { intros [= <- _]. auto. }
+    rewrite <- Wb. destruct (write_req (x_v s) (map snd (g_wb g))) as [v' pes] eqn:W.
+    intros [= <- _]. unfold inv in I. rewrite G in I.
+    destruct (writeback_inv _ _ _ _ _ _ _ _ _ I Sc W) as [_ H]. split; auto.
+  - destruct (x_gc s) as [g|]; [|discriminate].
+    destruct (negb (g_scanned g) || _); [discriminate|].
+    destruct (negb (file_present (x_v s) (g_fid g))); [discriminate|].
+    destruct (x_iters s); destruct deferred; try discriminate; intros [= <- _]; auto.
+  - destruct (x_gc s) as [g|]; [|discriminate]. intros [= <- _]. auto.
+Qed.
+
+Theorem gc_step_reads_unchanged s o s' tg :
+  inv s -> gc_label o = true -> xstep s o = XOk s' tg ->
+  forall k ts, x_dmax s <= ts -> vread s' k ts = vread s k ts.
+Proof.
+  intros I L X k ts Hts.
+  pose proof (xstep_inv _ _ _ _ I (gc_label_admissible s o L) X) as I'.
+  destruct (gc_label_gvis _ _ _ _ I L X) as (Hd & Hn & Hg).
+  rewrite (vread_gvis s' k ts I') by (rewrite Hd; exact Hts).
+  rewrite (vread_gvis s k ts I Hts). rewrite Hn. apply Hg.
+Qed.
+
+(* a key that is not visible stays invisible across a GC label: nothing is resurrected *)
+Corollary gc_step_no_resurrection s o s' tg :
+  inv s -> gc_label o = true -> xstep s o = XOk s' tg ->
+  forall k ts, x_dmax s <= ts -> vread s k ts = None -> vread s' k ts = None.
+Proof. intros I L X k ts Hts H. now rewrite (gc_step_reads_unchanged _ _ _ _ I L X k ts Hts). Qed.
+
+(* ------------------------------------------------------------------------------------ *)
+(* along histories *)
+
+Fixpoint run_ok (s : xsys) (ops : list xop) : Prop :=
+  match ops with
+  | [] => True
+  | o :: r => admissible s o /\ match xstep s o with XOk s' _ => run_ok s' r | XBad _ => True end
+  end.
+
+Lemma xexec_inv ops : forall s i tags s' tags',
+  inv s -> run_ok s ops -> xexec s ops i tags = (None, s', tags') -> inv s'.
+Proof.
+  induction ops as [|o r IH]; intros s i tags s' tags' I R; cbn [xexec].
+  - intros [= <- _]. exact I.
+  - cbn [run_ok] in R. destruct R as [A R]. destruct (xstep s o) as [s1 tg|c] eqn:X; [|discriminate].
+    apply IH; auto. eapply xstep_inv; eauto.
+Qed.
+
+Lemma init_inv managed detect nkeep nlevels next thr maxent :
+  inv (init_x managed detect nkeep nlevels next thr maxent).
+Proof.
+  unfold inv, init_x, init_sys, init_v, has_iters, x_db. cbn [x_sys x_v x_gc x_todel x_iters x_dmax s_db s_now].
+  assert (Hnil: all_entries (mkLsm [] [] (repeat [] nlevels)) = []).
+  { unfold all_entries, all_srcs. cbn [l_mt l_imm l_levels rev app concat].
+    generalize 0%nat. induction nlevels as [|n IHn]; intros lvl; cbn [repeat levels_srcs]; auto.
+    rewrite concat_app, IHn. destruct lvl; reflexivity. }
+  assert (Hget: forall k ts, db_get (mkLsm [] [] (repeat [] nlevels)) k ts = None).
+  { intros k ts. rewrite db_get_newest, Hnil; [reflexivity|].
+    split; [constructor|]. split; [constructor|]. cbn [l_levels].
+    destruct nlevels as [|n]; cbn [repeat]; auto. split; [constructor|].
+    clear. induction n as [|n IHn]; cbn [repeat]; constructor; auto. split; constructor. }
+  constructor; cbn [v_files v_gone v_max].
+  - split; [constructor|]. split; [constructor|]. cbn [l_levels].
+    destruct nlevels as [|n]; cbn [repeat]; auto. split; [constructor|].
+    clear. induction n as [|n IHn]; cbn [repeat]; constructor; auto. split; constructor.
+  - intros e He. rewrite Hnil in He. contradiction.
+  - intros a b Ha. rewrite Hnil in Ha. contradiction.
+  - intros k ts e _ G. rewrite Hget in G. discriminate.
+  - intros f rs H. cbn [vfind] in H. destruct (1 =? f) eqn:E; [|discriminate]. apply N.eqb_eq in E. lia.
+  - intros f [].
+  - intros f [].
+  - intros f [].
+  - exact Logic.I.
+Qed.
+
+(* C15, reads: in every history accepted by the model whose interleaved commits write fresh
+   versions and whose compactions keep winners and pending keys (see `admissible`), every GC
+   label — rewrite start, scan, write-back, file deletion now or deferred, end, iterator open /
+   close — leaves every read at or above the discard timestamp unchanged, for all keys *)
+Theorem gc_reads_unchanged_all_histories managed detect nkeep nlevels next thr maxent ops s tags o s' tg :
+  run_ok (init_x managed detect nkeep nlevels next thr maxent) ops ->
+  xexec (init_x managed detect nkeep nlevels next thr maxent) ops 0 [] = (None, s, tags) ->
+  gc_label o = true -> xstep s o = XOk s' tg ->
+  forall k ts, x_dmax s <= ts -> vread s' k ts = vread s k ts.
+Proof.
+  intros R X L S. eapply gc_step_reads_unchanged; eauto.
+  eapply xexec_inv; eauto. apply init_inv.
+Qed.
